@@ -197,7 +197,7 @@ def clear_true_singleton(cls: type | None = None) -> None:
     :param cls: The data type to clear singleton references from.  If not
        specified, clears all TrueSingleton types.
     """
-    if cls:
+    if cls is not None:
         if cls in TrueSingleton._TrueSingleton__singleton_instances:
             del TrueSingleton._TrueSingleton__singleton_instances[cls]
 
